@@ -18,3 +18,20 @@ PROPS = {
         "rule": "seeded generator: raft.Logs over varint boundaries 2^(7k)+-1, MaxUint64, nil/empty/64KiB-crossing data, 7 time shapes x 6 zone shapes; malformed stream of 7 mutation kinds; distinct = distinct input lines",
     },
 }
+
+VFY_TRUSTED = [GO, "github.com/segmentio/fasthash/fnv1a -- modelled (Base/Fnv.v) and differentially tested: every sum in every report is an observable of the vfy stream",
+               "raft.InmemStore / the WAL under a contract guard (harness guardStore: contiguous appends, prefix/suffix deletes = the C05 spec the model uses); at-rest corruption and StoreLogs faults are injected by that wrapper"]
+VFY_ASSUME = ["StoreLogs and DeleteRange of one LogStore are atomic with respect to each other (raft calls them from one goroutine; log compaction's head truncation racing a StoreLogs can only make the next WrittenSum unclaimed or stale-but-true, see DESIGN.md 10 vfy)",
+              "indexes are non-zero and below 2^64-1 (no uint64 wrap in idx+1 / max+1)",
+              "the verifier reads a range atomically with respect to writers (property quantifier: ranges not modified while their verification runs); the store contents at that moment are an arbitrary parameter sv of the theorems",
+              "the bootstrap exception (index 1 + LogConfiguration hashes to 0) is the explicit hypothesis no_bootstrap of the C17 range theorems"]
+VFY_RULE = ("seeded generator of multi-node histories: clusters of 2-3 nodes (leader appends, checkpoints, replication with random batch splits, "
+            "leadership changes with tail truncation of conflicting suffixes, follower restarts, head truncations, in-flight and at-rest single-field mutations, "
+            "blocked ReportFn, injected store failures), per-position mutation sweeps (13 mutation kinds x in flight / at rest on follower / at rest on leader / swapped entries), "
+            "invalid-operation soups (gaps, middle deletes, foreign Extensions, failing checkpoint fn) and drop scenarios; 1 line in 12 (quick) / 4 (thorough) runs over the real WAL; "
+            "distinct = distinct input lines")
+for _pid in ("C16", "C17", "C18"):
+    PROPS[_pid] = {
+        "streams": [S("vfy", 1500, 24000, vm=(40, 300), vm_maxlen=2500)],
+        "trusted": VFY_TRUSTED, "assumptions": VFY_ASSUME, "rule": VFY_RULE,
+    }
